@@ -150,11 +150,11 @@ def reset_index(df: pd.DataFrame, *, names: Optional[SWCNames] = None) -> pd.Dat
 def reset_index_(df: pd.DataFrame, *, names: Optional[SWCNames] = None) -> None:
     """Reset node index to start with zero."""
     names = get_names(names)
-    roots = df[names.pid] == -1
-    root_loc = roots.argmax()
-    root_id = df.loc[root_loc, names.id]  # type:ignore
-    df[names.id] = df[names.id] - root_id
-    df[names.pid] = np.where(df[names.pid] == -1, -1, df[names.pid] - root_id)
+    # rebase on the smallest id (the root's, in a sorted file): no id may
+    # become negative, as -1 is the "no parent" marker
+    base = df[names.id].min()
+    df[names.id] = df[names.id] - base
+    df[names.pid] = np.where(df[names.pid] == -1, -1, df[names.pid] - base)
 
 
 def _copy_and_apply(fn: Callable, df: pd.DataFrame, *args, **kwargs):
